@@ -79,13 +79,18 @@ def generate(ctx):
     rng = ctx.rng
     quick = ctx.tier == 'quick'
     yield 'translator', {}
-    dts = [1e-3, 1e-2, 0.1, 0.5, 1.0, 2.0, 10.0, 1e2, 1e3]
+    # dyadic step sizes with short mantissas keep the exact rational model fast
+    dts = [2.0 ** -10, 2.0 ** -7, 0.125, 0.5, 1.0, 2.0, 8.0, 128.0, 1024.0]
     reps = 2 if quick else 8
     for scheme in range(6):
         for d in (1, 2, 3):
             for r in range(reps):
                 for dt in dts:
-                    nonlinear = dt <= 2.0 and not (r == 0 and d == 1)
+                    if quick and scheme == 4 and d == 3 and (r > 0 or dt not in (2.0 ** -7, 1.0, 128.0)):
+                        continue      # exact-rational cost of the 13-digit 5-stage scheme in 3-D
+                    # (the 5-stage scheme with 13-digit decimals squares the size of the exact
+                    #  rationals at every stage: nonlinear F only in one dimension there)
+                    nonlinear = dt <= 2.0 and not (r == 0 and d == 1) and (scheme != 4 or d == 1 or (not quick and d == 2 and r == 1))
                     A, B, p, u = rand_problem(rng, d, nonlinear)
                     a = {'scheme': scheme, 'd': d, 'A': A, 'B': B, 'p': p, 'u': u, 'dt': dt}
                     if scheme == 1:
@@ -100,13 +105,13 @@ def generate(ctx):
         be = (rng.integers(-8, 9, size=n).astype(np.float64) / 8); be[0] = 0.0
         ga = rng.integers(-8, 9, size=n).astype(np.float64) / 8
         A, B, p, u = rand_problem(rng, d)
-        yield 'ls_generic', {'d': d, 'A': A, 'B': B, 'p': p, 'u': u, 'dt': float(rng.choice([1e-2, 0.25, 1.0, 30.0])),
+        yield 'ls_generic', {'d': d, 'A': A, 'B': B, 'p': p, 'u': u, 'dt': float(rng.choice([2.0 ** -7, 0.25, 1.0, 32.0])),
                              'alphas': al.tolist(), 'betas': be.tolist(), 'gammas': ga.tolist()}
     for _ in range(16 if quick else 120):
         s = int(rng.integers(2, 6)); d = int(rng.integers(1, 4))
         a_ex, a_im, b_ex, b_im = rand_tableau(rng, s)
         A, B, p, u = rand_problem(rng, d)
-        yield 'imex_generic', {'d': d, 'A': A, 'B': B, 'p': p, 'u': u, 'dt': float(rng.choice([1e-2, 0.25, 1.0, 30.0])),
+        yield 'imex_generic', {'d': d, 'A': A, 'B': B, 'p': p, 'u': u, 'dt': float(rng.choice([2.0 ** -7, 0.25, 1.0, 32.0])),
                                'a_ex': a_ex, 'a_im': a_im, 'b_ex': b_ex, 'b_im': b_im}
     # malformed stream: every small length triple; tableau shapes
     top = 5 if quick else 7
@@ -148,13 +153,13 @@ def generate(ctx):
             d = int(rng.integers(1, 4))
             A, B, p, u = rand_problem(rng, d)
             yield 'reduction', {'scheme': scheme, 'd': d, 'A': A, 'B': B, 'p': p, 'u': u,
-                                'dt': float(rng.choice([1e-2, 0.25, 1.0]))}
+                                'dt': float(rng.choice([2.0 ** -7, 0.25, 1.0]))}
     for r in range(2 if quick else 8):
         for scheme in (3, 4):
             d = int(rng.integers(1, 4))
-            A, B, p, u = rand_problem(rng, d)
+            A, B, p, u = rand_problem(rng, d, nonlinear=(scheme == 3))
             yield 'ls_vs_ark', {'scheme': scheme, 'd': d, 'A': A, 'B': B, 'p': p, 'u': u,
-                                'dt': float(rng.choice([1e-2, 0.25, 1.0]))}
+                                'dt': float(rng.choice([2.0 ** -7, 0.25, 1.0]))}
 
 
 # ---------------------------------------------------------------------------
@@ -371,28 +376,31 @@ DESIGN_LOCAL_ORDER = {  # local error exponent = design order + 1
 def r_order(ctx, a):
     sc, mode = a['scheme'], a['mode']
     A, B, p, u = _order_problem(a['c'], mode)
+    want = DESIGN_LOCAL_ORDER[(sc, mode)]
+    h0 = {2: 2.0 ** -8, 3: 2.0 ** -6, 4: 2.0 ** -4, 5: 2.0 ** -3}[want]
+    hs = [h0, h0 / 2, h0 / 4]
     errs = []
-    hs = [0.08, 0.04, 0.02]
+    from scipy.integrate import solve_ivp
+    rhs = lambda _t, y: A @ y + p * y * np.roll(y, -1) + B @ y
     for h in hs:
-        b = Bench(A, B, p, h, g_zero=False)
-        if sc == 1:
-            prev = _exact_flow(A, B, p, u, -h) if False else None
-            # exact snapshots at t-h (by integrating backwards) and t
-            from scipy.integrate import solve_ivp
-            f = lambda _t, y: A @ y + p * y * np.roll(y, -1) + B @ y
-            prev = solve_ivp(f, (0.0, -h), u, method='DOP853', rtol=1e-13, atol=1e-15).y[:, -1]
+        b = Bench(A, B, p, h)
+        if sc == 1:   # exact snapshots at t-h (integrating backwards) and t
+            prev = solve_ivp(rhs, (0.0, -h), u, method='DOP853', rtol=1e-13, atol=1e-15).y[:, -1]
             out = impl_step(1, b, h, np.concatenate([prev, u]))[2:]
         else:
             out = impl_step(sc, b, h, u)
         errs.append(float(np.max(np.abs(out - _exact_flow(A, B, p, u, h)))))
-    want = DESIGN_LOCAL_ORDER[(sc, mode)]
-    # observed exponents between successive halvings; generous margin, and errors at
-    # round-off level count as "at least that order"
-    obs = [np.log2(max(errs[i], 1e-300) / max(errs[i + 1], 1e-300)) for i in range(2)]
-    ok = all(o >= want - 0.35 or errs[i + 1] < 5e-13 for i, o in enumerate(obs))
+    # Fitted exponent of the local error over two halvings.  Float64 oracle with
+    # generous margins: a tiny leading error constant (near-cancellation, error
+    # <= 0.005 h^want) or errors at round-off level count as "order reached".
+    fit = float(np.log2(max(errs[0], 1e-300) / max(errs[2], 1e-300)) / 2)
+    obs = [float(np.log2(max(errs[i], 1e-300) / max(errs[i + 1], 1e-300))) for i in range(2)]
+    small = errs[2] <= 0.005 * hs[2] ** want or errs[2] < 2e-12
+    ok = bool(fit >= want - 0.4 or small)
+    if small and fit < want - 0.4: ctx.count('order: inconclusive (tiny error constant)')
     ctx.count('order:%s:%s' % (SCHEMES[sc], mode))
     ctx.oracle('one step reproduces the exact flow to the design order (%s, %s: local error O(h^%d))' % (SCHEMES[sc], mode, want),
-               ok, {'h': hs, 'local_errors': errs, 'observed_exponents': [float(o) for o in obs], 'required': want})
+               ok, {'h': hs, 'local_errors': errs, 'observed_exponents': obs, 'fitted': fit, 'required': want})
 
 
 def _coefs(ctx, k):
